@@ -2653,24 +2653,24 @@ func (c *Container) bitmapToArray() *Container {
 		return c
 	}
 	bitmap := c.bitmap()
-	n := int32(0)
 
-	array := make([]uint16, c.N())
+	// The count may come from untrusted data (a decoded header): size the
+	// array by it, but let the bits decide how many values there are.
+	array := make([]uint16, 0, c.N())
 	for i, word := range bitmap {
 		for word != 0 {
 			t := word & -word
 			if roaringParanoia {
-				if n >= c.N() {
+				if int32(len(array)) >= c.N() {
 					panic("bitmap has more bits set than container.n")
 				}
 			}
-			array[n] = uint16((i*64 + int(popcount(t-1))))
-			n++
+			array = append(array, uint16((i*64 + int(popcount(t-1)))))
 			word ^= t
 		}
 	}
 	if roaringParanoia {
-		if n != c.N() {
+		if int32(len(array)) != c.N() {
 			panic("bitmap has fewer bits set than container.n")
 		}
 	}
@@ -2892,16 +2892,15 @@ func (c *Container) runToArray() *Container {
 
 	runs := c.runs()
 
-	array := make([]uint16, c.N())
-	n := int32(0)
+	// As in bitmapToArray: the runs, not the stored count, decide the length.
+	array := make([]uint16, 0, c.N())
 	for _, r := range runs {
 		for v := int(r.start); v <= int(r.last); v++ {
-			array[n] = uint16(v)
-			n++
+			array = append(array, uint16(v))
 		}
 	}
 	if roaringParanoia {
-		if n != c.N() {
+		if int32(len(array)) != c.N() {
 			panic("run has fewer bits set than container.n")
 		}
 	}
